@@ -300,7 +300,7 @@ def run(ctx):
     )
     ctx.assumptions += ["as C02; smoothed moments are judged relative to the filtering variances at the same node"]
     corpus(ctx)
-    n = ctx.n(12, 150)
+    n = ctx.n(10, 150)
     for it in range(n):
         strat = ["fixedinterval", "fixedpoint"][it % 2]
         cfg, d, order = c02.random_config(ctx, strat, it // 2)
